@@ -205,6 +205,85 @@ def c09_configurator_cache(tier, seed):
     return _finish(r)
 
 
+def c09_configurator_purity(tier, seed):
+    """C09 for configurators: select / add / ge_polyhedron / default_prios / leafs / to_json / to_b64 never change the
+    configurator they are called on; every answer equals the answer of a freshly built identical configurator"""
+    import puan
+    import puan.logic.plog as pg
+    import puan.modules.configurator as cc
+    r = _result("rt.c09_configurator_purity", "configurators over <=6 items x sequences of 4 calls out of (select with a priority, "
+                "select only_leafs, add(new rule), ge_polyhedron, default_prios, leafs, to_json, to_b64, flatten, errors); "
+                "structural snapshot of the receiver (memo fields excluded) before/after each call and comparison of each answer "
+                "with the same call on a freshly built copy; non-trivial = distinct (call, position in the sequence)")
+    rng = random.Random(seed + 301)
+    calls = ["select", "select_leafs", "add", "ge_polyhedron", "default_prios", "leafs", "to_json", "to_b64", "flatten", "errors"]
+
+    def build(k):
+        rules = [cc.Xor("a", "b", "c", default=["b"], variable="X"), cc.Any("d", "e", default=["d"], variable="Y"),
+                 pg.Imply("a", pg.Any("d", "f", variable="DF"), variable="I"), pg.AtMost(1, ["c", "e"], variable="M")]
+        return cc.StingyConfigurator(*rules[: 2 + k % 3], id="purity")
+
+    def do(cfg, name):
+        if name == "select":
+            return json.dumps([_jsonable(x) for x in cfg.select({"a": 1}, solver=dummy_solver)], default=str)
+        if name == "select_leafs":
+            return json.dumps([_jsonable(x) for x in cfg.select({"c": 1}, solver=dummy_solver, only_leafs=True)], default=str)
+        if name == "add":
+            return cfg.add(pg.Any("g", "h", variable="NEW")).to_text()
+        if name == "ge_polyhedron":
+            p = cfg.ge_polyhedron
+            return json.dumps([p.tolist(), [str(v.id) for v in p.variables]])
+        if name == "default_prios":
+            return json.dumps(sorted((str(k_), int(v)) for k_, v in cfg.default_prios.items()))
+        if name == "leafs":
+            return json.dumps([str(v.id) for v in cfg.leafs()])
+        if name == "to_json":
+            return json.dumps(cfg.to_json(), sort_keys=True, default=str)
+        if name == "to_b64":
+            return cc.StingyConfigurator.from_b64(cfg.to_b64()).to_text() if hasattr(cc.StingyConfigurator, "from_b64") else ""
+        if name == "flatten":
+            return json.dumps([str(x.id) for x in cfg.flatten()])
+        return json.dumps([str(e) for e in cfg.errors()])
+
+    def shape(cfg):
+        return json.dumps([cfg.to_text(), len(cfg.propositions), int(cfg.value), int(cfg.sign), str(cfg.id)])
+
+    n = 40 if tier == "quick" else 300
+    for k in range(n):
+        cfg = build(k)
+        for step in range(4):
+            name = rng.choice(calls)
+            before = shape(cfg)
+            try:
+                got = do(cfg, name)
+            except Exception as e:
+                got = "raised " + type(e).__name__
+            after = shape(cfg)
+            try:
+                exp = do(build(k), name)
+            except Exception as e:
+                exp = "raised " + type(e).__name__
+            r["evaluations"] += 1
+            r["_seen"].add((name, step))
+            w = {"rules": 2 + k % 3, "call": name, "step": step}
+            if before != after:
+                _viol(r, f"c09.configurator-changed-by[{name}]", w, before=before[:300], after=after[:300])
+            if got != exp:
+                _viol(r, f"c09.configurator-answer-depends-on-history[{name}]", w, got=got[:300], expected=exp[:300])
+    return _finish(r)
+
+
+def _jsonable(x):
+    if isinstance(x, dict):
+        return {str(k): _jsonable(v) for k, v in sorted(x.items(), key=lambda kv: str(kv[0]))}
+    if isinstance(x, (list, tuple)):
+        return [_jsonable(v) for v in x]
+    try:
+        return int(x)
+    except Exception:
+        return str(x)
+
+
 def _reference_answer(build, b, q, ask):
     """answer of a configurator with bounds b built under a unique id (cannot collide with any cached one), mapped back"""
     import puan
